@@ -206,6 +206,37 @@ theorem exec_keeps_tr {env : IEnv World} {i : Instr} (hi : i.isJournal = false) 
     simp only [exec, IState.cont, stackPanic] at h <;> (repeat' split at h) <;> simp_all <;>
     (try (subst h; rfl)) <;> (try (cases h; rfl))
 
+/-- a table without journal rows (go-ethereum's own tables; the fork's with 0xe0–0xe7 filtered out) -/
+def StdTable (env : IEnv World) : Prop :=
+  ∀ op row i, env.table op = some row → decode row.exec op = some i → i.isJournal = false
+
+/-- C01 at the loop level: over the standard instruction set the Artela tracer is invisible — one iteration from two states that
+    differ in the tracer only gives results that differ in the tracer only -/
+theorem step_setTr_std {env : IEnv World} (hstd : StdTable env) (x : Tracer) (s : IState World) :
+    step env (s.setTr x) = (step env s).setTr x := by
+  unfold step stepWith
+  rw [pre_setTr env x s]
+  cases hp : pre env s with
+  | halt h g => rfl
+  | panic p => rfl
+  | next is1 =>
+    obtain ⟨i, s1⟩ := is1
+    dsimp only
+    obtain ⟨row, hr, hd, _⟩ := pre_next_inv hp
+    exact exec_setTr env i (hstd _ _ _ hr hd) x s1
+
+theorem run_setTr_std {env : IEnv World} (hstd : StdTable env) (n : Nat) (x : Tracer) (s : IState World) :
+    run env n (s.setTr x) = (run env n s).setTr x := by
+  induction n generalizing s with
+  | zero => rfl
+  | succ n ih =>
+    unfold run
+    rw [step_setTr_std hstd x s]
+    cases step env s with
+    | next s' => simp only [Out.setTr]; exact ih s'
+    | halt h g => rfl
+    | panic p => rfl
+
 /-- the pops program never consults or changes the tracer: it ends with the tracer it started with -/
 theorem runPops_tr (env : IEnv World) (n : Nat) (s s' : IState World) (h : runPops env n s = .next s') : s'.tr = s.tr := by
   induction n generalizing s with
